@@ -51,7 +51,8 @@ def run_variant(args):
         out = {}
         for prop in props:
             r = subprocess.run([sys.executable, '-m', 'cardverif', 'check', prop, '--repo', tmp], cwd=VERIF, capture_output=True,
-                               text=True, env={'CARDVERIF_TIME_BUDGET': '60', **os.environ, 'CARDVERIF_NOEVIDENCE': '1', 'PYTHONDONTWRITEBYTECODE': '1'})
+                               text=True, env={'CARDVERIF_TIME_BUDGET': '60', **{k: v for k, v in os.environ.items() if k not in ('CARDVERIF_DEEP', 'VERIF_TIER')},
+                                                'CARDVERIF_NOEVIDENCE': '1', 'PYTHONDONTWRITEBYTECODE': '1'})
             first = next((l for l in r.stdout.splitlines() if l.startswith(('REFUTED', 'UNDECIDED', 'ANALYSIS-ERROR'))), '')
             out[prop] = (r.returncode, first[:200])
         return vid, 'ran', None, out
